@@ -77,6 +77,9 @@ def body_variants(body):
             new_fc = 0o51 if fc != 0o51 else 0o20
             b[pos] = (new_fc << 2) | (b[pos] & 3)
             out.append(("wrong-type", bytes(b)))
+            # the first leaf wrapped in 1500 one-element lists: deeper than the interpreter's recursion limit wherever a list is accepted there
+            for k, lp in enumerate(_leaf_positions(body)[:8]):
+                out.append((f"deep-at-leaf-{k}", body[:lp] + b"\x01\x01" * 1500 + body[lp:]))
         out.append(("trailing", body + b"\xa5\x01\x07"))
     return out
 
@@ -95,6 +98,27 @@ def _first_leaf(body):
     except IndexError:
         return None
     return None
+
+
+def _leaf_positions(body):
+    """Byte offsets of every leaf item header of a well-formed body (lists are walked, not skipped)."""
+    out = []
+    pos = 0
+    try:
+        while pos < len(body):
+            fb = body[pos]
+            nlb = fb & 3
+            if nlb == 0:
+                break
+            n = int.from_bytes(body[pos + 1:pos + 1 + nlb], "big")
+            if fb >> 2 == 0:
+                pos += 1 + nlb  # a list: its elements follow
+            else:
+                out.append(pos)
+                pos += 1 + nlb + n
+    except IndexError:
+        pass
+    return out
 
 
 class Probe:
@@ -126,7 +150,13 @@ def run_batch(batch, role="equipment", user_mode="none", order="fwd"):
         if not ep.establish(s):
             out["harness"] = f"could not establish communication: {ep.comm()} {ep.state()}"
             return
-        for stream, function, w, body_hex, tag in msgs:
+        for idx, (stream, function, w, body_hex, tag) in enumerate(msgs):
+            if user_mode == "reply-unregister-register" and idx in (1, 2):
+                # second message: the callback has been unregistered; third: registered again
+                if idx == 1:
+                    h.unregister_stream_function(us, uf)
+                else:
+                    h.register_stream_function(us, uf, user_cb)
             body = bytes.fromhex(body_hex)
             sysb = ep.send_primary(stream, function, bool(w), body)
             hdr = e37.data(stream, function, bool(w), sysb, b"")[4:14]
@@ -138,7 +168,7 @@ def run_batch(batch, role="equipment", user_mode="none", order="fwd"):
                 if not ep.auto_reply([f for f in new if f["system"] != sysb]):
                     break
             mine = [f for f in frames if f["stype"] == 0 and f["system"] == sysb]
-            registered = user_mode != "none" and (stream, function) == (us, uf)
+            registered = user_mode != "none" and (stream, function) == (us, uf) and not (user_mode == "reply-unregister-register" and idx == 1)
             inherited = callable(getattr(h, f"_on_s{stream:02d}f{function:02d}", None))
             kinds = [(f["stream"], f["function"]) for f in mine]
             ctxinfo = {"msg": [stream, function, w, body_hex, tag], "replies": [e37.brief(f) for f in mine], "comm": ep.comm(),
@@ -168,7 +198,7 @@ def run_batch(batch, role="equipment", user_mode="none", order="fwd"):
                         out["v"].append((f"C08|failed-callback-not-aborted|{where}|got=S{kinds[0][0]}F{kinds[0][1]}", ctxinfo))
                 elif kinds[0] not in ((stream, function + 1), (stream, 0)):
                     out["v"].append((f"C08|wrong-reply-function|{where}|{tag}|got=S{kinds[0][0]}F{kinds[0][1]}", ctxinfo))
-                elif registered and user_mode == "reply" and kinds[0] != (stream, function + 1):
+                elif registered and user_mode in ("reply", "reply-unregister-register") and kinds[0] != (stream, function + 1):
                     out["v"].append((f"C08|callback-result-not-sent|{where}|got=S{kinds[0][0]}F{kinds[0][1]}", ctxinfo))
                 elif tag == "sample" and kinds[0] == (stream, 0) and inherited:
                     out["obs"].append(("abort-on-sample", stream, function))
@@ -382,9 +412,18 @@ def cases(ctx):
         for i in range(0, len(batch), 64):
             yield {"role": role, "batch": batch[i:i + 64]}
             yield {"role": role, "batch": batch[i:i + 64], "order": "rev"}
+        # (b2) bodies nested deeper than the interpreter's recursion limit (1500 one-element lists around a U1) for functions with a callback,
+        #      with list-valued items, and without callback: still exactly one answer
+        deep = e5.enc(("U1", [1]))
+        for _ in range(1500):
+            deep = b"\x01\x01" + deep
+        yield {"role": role, "batch": [[s_, f_, 1, deep.hex(), "deep-nesting"] for s_, f_ in ((1, 3), (6, 11), (2, 41), (1, 13), (99, 1), (2, 33))]}
         # (c) user callbacks on a catalogued primary without inherited handler
         us, uf = USER_SF[role]
         ub = samples.get((us, uf), [b""])[0]
+        # register, handle one primary, unregister, the same primary again (S9F5 now), register again, once more (answered again)
+        yield {"role": role, "batch": [[us, uf, 1, ub.hex(), "sample"], [us, uf, 1, ub.hex(), "sample"], [us, uf, 1, ub.hex(), "sample"], [1, 1, 1, "", "hdr"]],
+               "user_mode": "reply-unregister-register"}
         for mode in ("reply", "raise", "none-result"):
             seq = [[us, uf, 1, ub.hex(), "sample"], [1, 1, 1, "", "hdr"], [us, uf, 1, ub.hex(), "sample"], [us, uf, 0, ub.hex(), "sample"],
                    [99, 1, 1, "", "hdr"], [us, uf, 1, ub[:-1].hex(), "truncated"], [1, 1, 1, "", "hdr"]]
